@@ -14,13 +14,12 @@ LEVEL = "exploration"
 RULE = ("Generated directory layouts in a temp dir: any non-empty subset of {direct metadata/, compose/metadata/, one or two "
         "legacy <version>/metadata/}, in each location any subset of the four metadata kinds under current and/or legacy file "
         "names (images.json / image-manifest.json, rpms.json / rpm-manifest.json), every file carrying a distinguishable "
-        "payload or invalid content (not JSON, empty, foreign header type, field-constraint violation, missing section); "
+        "payload or invalid content (not JSON, empty, foreign header type, field-constraint violation, missing section, a header version that is no version, well-formed JSON of the wrong shape); "
         "path with or without trailing slash; unrelated sub-directories. Oracle: compose/ wins when it has a composeinfo; "
         "otherwise the resolved location must be one that has a metadata directory; every accessor must equal (by dumps()) a "
         "direct load of a candidate file the description placed in the resolved location (either spelling when both exist), "
         "be the identical object on re-access even after the file was deleted, and a missing / undecodable / invalid file "
-        "must surface as RuntimeError naming the location (other exception types for structurally incomplete files must "
-        "still raise). Non-trivial = >= 2 locations populated, or a legacy file name, or invalid content; distinct = SHA-1 "
+        "must surface as RuntimeError naming the location. Non-trivial = >= 2 locations populated, or a legacy file name, or invalid content; distinct = SHA-1 "
         "of the layout. A failing accessor is read twice (same failure again); builtins.open is traced: a candidate file that was opened, is unusable and did not surface is a violation whatever the probing order. The directory is rebuilt under the same path and opened by a new object; a second object asked in the opposite order must give the same answers; directory names carry pattern characters, blanks and non-ASCII letters.")
 ASSUMPTIONS = ["precedence between direct and legacy locations, between two legacy locations and between the two spellings of a manifest name is left open by the statement: any candidate is accepted",
                "http(s) access is not exercised (no network)"]
@@ -29,7 +28,20 @@ FLOORS = {"layouts": 250, "layouts:invalid-content": 60, "layouts:legacy-name": 
 KINDS = {"info": ["composeinfo.json"], "images": ["images.json", "image-manifest.json"], "rpms": ["rpms.json", "rpm-manifest.json"],
          "modules": ["modules.json"]}
 # "bom" / "utf-16": a well-formed document saved in an encoding a plain load() of the file refuses (undecodable for the library)
-CONTENT = ["valid", "valid", "valid", "valid", "not-json", "empty", "foreign-type", "bad-field", "missing-section", "bom", "utf-16"]
+# "version:<text>": a complete document whose header names a version that is no version; "shape:<what>": well-formed JSON that
+# is not shaped like metadata (a file cut off and re-closed by a tool, a placeholder written by a failed job)
+BAD_VERSIONS = ["v1.2", "abc", " 1.2", "-1.2", ".1", "1", "", "1.x", "1.2.3", "1.2 ", "1,2", "one.two"]
+BAD_SHAPES = ["{}", "[]", "null", "1", "string", "payload-null", "payload-list", "header-null", "header-list", "header-only", "no-header",
+              "no-type", "version-number", "version-null", "compose-null", "compose-list", "body-null", "body-number"]
+CONTENT = (["valid"] * 10 + ["not-json", "empty", "foreign-type", "bad-field", "missing-section", "bom", "utf-16"]
+           + ["version:" + v for v in BAD_VERSIONS[:4]] * 1 + ["shape:" + s for s in BAD_SHAPES[:4]])
+CONTENT_ALL = sorted(set(CONTENT) | set("version:" + v for v in BAD_VERSIONS) | set("shape:" + s for s in BAD_SHAPES))
+BODY_KEY = {"info": "variants", "images": "images", "rpms": "rpms", "modules": "modules"}
+
+
+def must_be_runtime_error(content):
+    """content classes for which the statement fixes the exception: undecodable, or refused by a documented rule"""
+    return content in ("not-json", "empty", "foreign-type", "bad-field", "missing-section", "bom", "utf-16") or content.startswith(("version:", "shape:"))
 
 
 @st.composite
@@ -38,7 +50,7 @@ def files_strategy(draw):
     for kind in draw(st.lists(st.sampled_from(sorted(KINDS)), min_size=0, max_size=4, unique=True)):
         names = KINDS[kind]
         chosen = draw(st.lists(st.sampled_from(names), min_size=1, max_size=len(names), unique=True))
-        out[kind] = {name: draw(st.sampled_from(CONTENT)) for name in chosen}
+        out[kind] = {name: draw(st.one_of(st.sampled_from(CONTENT), st.sampled_from(CONTENT_ALL))) for name in chosen}
     return out
 
 
@@ -84,6 +96,34 @@ def make_text(kind, content, serial):
     if content == "empty":
         return ""
     doc = json.loads(text)
+    if content.startswith("version:"):
+        doc["header"]["version"] = content[len("version:"):]
+        return json.dumps(doc)
+    if content.startswith("shape:"):
+        what = content[len("shape:"):]
+        if what.startswith("body-") and kind in ("rpms", "modules"):
+            what = what.replace("body-", "compose-")      # these two store the body as given; only header and compose section are checked
+        if what in ("{}", "[]", "null", "1"):
+            return what
+        if what == "string":
+            return json.dumps(text[:20])
+        holder, key = {"payload": (doc, "payload"), "header": (doc, "header"), "compose": (doc["payload"], "compose"),
+                       "body": (doc["payload"], BODY_KEY[kind])}.get(what.split("-")[0], (None, None))
+        if what.endswith(("-null", "-list", "-number")) and holder is not None:
+            holder[key] = None if what.endswith("-null") else [] if what.endswith("-list") else 5
+        elif what == "header-only":
+            del doc["payload"]
+        elif what == "no-header":
+            del doc["header"]
+        elif what == "no-type":
+            del doc["header"]["type"]
+        elif what == "version-number":
+            doc["header"]["version"] = 1.2
+        elif what == "version-null":
+            doc["header"]["version"] = None
+        else:
+            raise AssertionError(what)
+        return json.dumps(doc)
     if content == "foreign-type":
         doc["header"]["type"] = "productmd.discinfo" if kind != "info" else "productmd.images"
     elif content == "bad-field":
@@ -199,7 +239,7 @@ def probe(tmp, root, locations, layout):
                 # acceptable only if some candidate file really is unusable
                 bad = [f for f, c in candidates.items() if c != "valid"]
                 check(bad, "valid-file-not-loaded", lambda: "%s: valid file(s) %r in %r but access raised %s: %s" % (kind, sorted(candidates), resolved, type(err).__name__, err))
-                if all(c in ("not-json", "empty", "foreign-type", "bad-field", "bom", "utf-16") for c in candidates.values()):
+                if all(must_be_runtime_error(c) for c in candidates.values()):
                     check(isinstance(err, RuntimeError), "undecodable-file-not-runtimeerror", lambda: "%s: %r raised %s: %s" % (kind, candidates, type(err).__name__, err))
                     check(any(f in str(err) for f in candidates) or "metadata" in str(err), "error-does-not-name-location", lambda: "%s: %s" % (kind, err))
                 continue
